@@ -142,6 +142,7 @@ impl TCheck for C01 {
                 record_events: false,
                 hard_fault: false,
                 one_cpu: false,
+                post: None,
             };
         }
         let comp = *rng.pick(&[
@@ -259,6 +260,7 @@ impl TCheck for C01 {
                 record_events: false,
                 hard_fault: false,
                 one_cpu: false,
+                post: None,
             }
         } else {
             let w = Arc::new(Work {
@@ -287,6 +289,7 @@ impl TCheck for C01 {
                 record_events: false,
                 hard_fault: false,
                 one_cpu: false,
+                post: None,
             }
         }
     }
